@@ -84,7 +84,8 @@ def check_float_to_time(ctx: Ctx, r: Rule, T: Timing) -> None:
                 elif not (v[0] == "const"):
                     fail(r, ctx, f, c.node, f"timedelta({name}={show(v)[:120]}) is not one of the verified time constructions")
     if n == 0:
-        raise AnalysisError("no timedelta construction found: the conversion sites vanished")
+        fail(r, ctx, T.qf, T.qf.node, "no timedelta construction found on the parse path: the float->time conversion sites "
+                                      "vanished")
 
 
 def _static_type(ctx: Ctx, f, v):
